@@ -167,7 +167,8 @@ class BayesianNetwork(DAG):
 
         for affected_node in affected_nodes:
             node_cpd = self.get_cpds(node=affected_node)
-            if node_cpd:
+            # (a child's CPD that does not mention the node has nothing to marginalize)
+            if node_cpd and node in node_cpd.scope():
                 node_cpd.marginalize([node], inplace=True)
 
         if self.get_cpds(node=node):
